@@ -491,7 +491,8 @@ def get_async(
                 nready = len(state["ready"])
                 if chunksize == -1:
                     ntasks = nready
-                    chunksize = -(ntasks // -num_workers)
+                    # At least 1: nothing may be ready while tasks are still running
+                    chunksize = max(-(ntasks // -num_workers), 1)
                 else:
                     used_workers = -(len(state["running"]) // -chunksize)
                     avail_workers = max(num_workers - used_workers, 0)
